@@ -267,7 +267,17 @@ func zzH_C46_ip_accounting() {
 			b.replacements = append(b.replacements, tn)
 		}
 	}
-	switch zzChoice(2) {
+	switch zzChoice(3) {
+	case 2:
+		// a node already held as a replacement is seen again with another record (possibly newer,
+		// possibly at another address)
+		if nr == 0 {
+			return
+		}
+		old := b.replacements[zzChoice(nr)]
+		rec := enode.ZZNodeAt(old.ID(), zzPublicIP(), 30303, zzNondetU64())
+		tab.addReplacement(b, rec)
+		zzReach("replacement-reoffered")
 	case 0:
 		// an existing entry announces a new endpoint (possibly into a full subnet: refused)
 		old := b.entries[zzChoice(ne)]
